@@ -36,6 +36,8 @@ type Field struct {
 }
 
 type Event struct {
+	U     int     `json:"u"`
+	V2    int     `json:"v"`
 	F     string  `json:"f"`
 	Impl  string  `json:"impl"`
 	Op    string  `json:"op"`
@@ -51,13 +53,22 @@ type Event struct {
 	R     []int   `json:"r"`
 	R2    []int   `json:"r2"`
 	W     []int   `json:"w"`
-	V     []int   `json:"v"`
+	V     []int   `json:"vint"`
 	Xzero bool    `json:"xzero"`
 	ZeroD bool    `json:"zero_defined"`
 	IsQR  bool    `json:"isqr"`
 	Ok    bool    `json:"ok"`
 	Strict bool   `json:"strict"`
 }
+
+// NewEvent / Hint let recorders with operations outside the generic runner (Fp2 components, fused multiply-add)
+// build events by hand.  Register indices are 0-based here.
+func NewEvent(f *Field, op string, x, y, z, u, v int) Event {
+	return Event{F: f.Name, Impl: f.Impl, Op: op, P: vlib.Digits(f.P), X: x + 1, Y: y + 1, Z: z + 1, U: u + 1, V2: v + 1,
+		Qa: [][]int{{}, {}}, Qb: [][]int{{}, {}}, R: []int{}, R2: []int{}, W: []int{}, V: []int{}}
+}
+func Hint(f *Field, e *Event, i int, a, b *big.Int) { e.Qa[i], e.Qb[i] = vlib.Quot(a, f.P), vlib.Quot(b, f.P) }
+func Snapshot(f *Field) [][]int                     { return f.snapshot() }
 
 // Structured returns the whole-element operand set: small values, neighbours of multiples of p, powers of two at
 // limb boundaries +-small, the maximum; all within [0, max].
@@ -161,8 +172,7 @@ func Run(f *Field, rng *rand.Rand, n int, emit func(Event)) {
 	}
 	kp := new(big.Int).Lsh(f.P, 16)
 	base := func(op string, x, y, z int) Event {
-		return Event{F: f.Name, Impl: f.Impl, Op: op, P: vlib.Digits(f.P), X: x + 1, Y: y + 1, Z: z + 1, Qa: [][]int{{}, {}}, Qb: [][]int{{}, {}},
-			R: []int{}, R2: []int{}, W: []int{}, V: []int{}}
+		return NewEvent(f, op, x, y, z, 0, 0)
 	}
 	hint := func(e *Event, i int, a, b *big.Int) { e.Qa[i], e.Qb[i] = vlib.Quot(a, f.P), vlib.Quot(b, f.P) }
 	patterns := [][3]int{{0, 1, 2}, {0, 0, 1}, {0, 1, 0}, {0, 1, 1}, {0, 0, 0}, {2, 0, 1}}
